@@ -282,7 +282,7 @@ def build_python(spec, pool=None):
         nts[k] = pool[('nt', k)]
 
     def edge(e):
-        a = {k: v for k, v in e[2].items() if v is not None}
+        a = {k: v for k, v in e[2].items() if v is not None and k in ('weight', 'delay', 'spread')}
         return (e[0], e[1], None, a)
 
     def circ(s):
@@ -318,7 +318,7 @@ def yaml_text(spec):
         lines.append('')
 
     def edge(e):
-        a = ', '.join(f'{k}: {float(v)!r}' for k, v in e[2].items() if v is not None)
+        a = ', '.join(f'{k}: {float(v)!r}' for k, v in e[2].items() if v is not None and k in ('weight', 'delay', 'spread'))
         return f'    - [{e[0]}, {e[1]}, null, {{{a}}}]'
 
     def circ(s, top):
